@@ -719,6 +719,9 @@ class Verifier:
         raise Unsupported(f"type({v!r})")
 
     def id_of(self, I, v):
+        hook = self.c.ghost.get("id_of")
+        if hook is not None:
+            return hook(I, v)
         raise Unsupported("id()")
 
     # ------------------------------------------------------------------ abstract sorts
